@@ -51,7 +51,9 @@ ASSUMPTIONS = [
 ]
 TRUSTED = ["exact simplex over Fractions with certified answers (witness substituted / Farkas certificate verified)",
            "CBC answers are re-validated exactly; crashes, timeouts and answers invalid for the given MIP are discarded and counted",
-           "'reports success exactly when a price system exists' is tested against the LP oracle, not proved",
+           "'reports success exactly when a price system exists': the program priceable() builds is compared row by row with the Lean model "
+           "PriceMIP.constraints, proved to encode the definition (C12MIP.lean: encoding_sound / encoding_complete, <= 10 supporters per "
+           "selected project, unselected costs <= 10 x budget); what CBC answers for that program is tested against the LP oracle, not proved",
            "optimality of the beta returned with a relaxation is tested against the exact simplex (primal/dual certificates verified), not proved"]
 
 TOL = 1e-6
@@ -954,6 +956,10 @@ def run(ctx):
     lines = []
     relax_validator_part(ctx, ctx.scale(25, 250), lines)
     flush_relax_model(ctx, lines)
+    from . import C12_mip  # the program priceable() really builds == the Lean model PriceMIP.constraints (C12MIP.lean)
+
+    C12_mip.mip_part(ctx, ctx.scale(30, 400), solve_every=ctx.scale(6, 3), gen_case=gen_case, subsets=subsets, budget_s=ctx.scale(25, None))
+    C12_mip.bigM_limits(ctx)
     box = solverbox.Box()
     try:
         search_part(ctx, box, ctx.scale(120, 1500), modes_cap=ctx.scale(40, None))
